@@ -100,6 +100,7 @@ pub struct SysState {
     pub short_read_pct: u32,
     pub short_read_state: u64,
     pub short_reads: u64,
+    pub stderr_passthrough: bool,
 }
 
 impl SysState {
@@ -121,6 +122,7 @@ impl SysState {
             short_read_pct: 0,
             short_read_state: rand_seed ^ 0x5DEECE66D,
             short_reads: 0,
+            stderr_passthrough: std::env::var_os("BITASIM_STDERR").is_some(),
         }
     }
     pub fn norm(&self, p: &str) -> (String, bool) {
@@ -274,6 +276,16 @@ fn find_fault(st: &mut SysState, path: usize, op: Op, index: u64) -> Option<Faul
             r.fired = true;
             let a = r.action.clone();
             st.fault_fired.push((name.clone(), format!("{:?}@{:?}#{}", a, op, index)));
+            let kind: &'static str = match &a {
+                FaultAction::Errno(_) => "fault:WriteErrno",
+                FaultAction::Short(_) => "fault:ShortWrite",
+                FaultAction::PartialThenErrno(..) => "fault:PartialWriteThenErrno",
+                FaultAction::Eintr => "fault:Eintr",
+                FaultAction::Crash(usize::MAX) => "fault:CrashAfterWrite",
+                FaultAction::Crash(0) => "fault:CrashBeforeWrite",
+                FaultAction::Crash(_) => "fault:CrashTornWrite",
+            };
+            simkit::try_with(|s| s.count(kind));
             return Some(a);
         }
     }
@@ -425,7 +437,7 @@ pub unsafe extern "C" fn write(fd: c_int, buf: *const c_void, count: size_t) -> 
         st.stdout.extend_from_slice(std::slice::from_raw_parts(buf as *const u8, count));
         return count as ssize_t;
     }
-    if fd == 2 && st.capture_stdout {
+    if fd == 2 && st.capture_stdout && !st.stderr_passthrough {
         // panic messages etc.: swallowed while a run is active
         return count as ssize_t;
     }
